@@ -407,6 +407,9 @@ func Exec(c *Case) (obs *Obs, term string) {
 			obs.SetupErr = err
 			return obs, ""
 		}
+		// the caller owns the blobs: it may wipe or reuse them once the import has returned
+		clobber(ba)
+		clobber(bb)
 		w.keyed = true
 		w.dirAB, w.dirBA = NewDir(s.Key), NewDir(s.Key)
 		w.dirAB.Counter, w.dirAB.First = s.CtrAB, !s.FinAB
@@ -464,7 +467,11 @@ func Exec(c *Case) (obs *Obs, term string) {
 			blob, err := s.ExportCryptoState()
 			ok := err == nil
 			if ok {
+				// hand the blob over in a slice of exactly its length and wipe it afterwards, as a caller
+				// holding raw key material would: the imported stream must not keep pointing into it
+				blob = append(make([]byte, 0, len(blob)), blob...)
 				ns, err2 := stream.NewStreamWithCryptoState(conn, blob)
+				clobber(blob)
 				if err2 != nil {
 					ok = false
 				} else if st.WhoA {
@@ -904,4 +911,11 @@ func (f SentFrame) rdTerm() string {
 		return "None"
 	}
 	return optDig(f.Opened.RecvZero, f.recvClear)
+}
+
+// clobber overwrites a buffer the caller is entitled to reuse after a call has returned.
+func clobber(b []byte) {
+	for i := range b {
+		b[i] = 0xEE
+	}
 }
